@@ -441,8 +441,8 @@ func TestVerifC13Reject(t *testing.T) {
 	c := ev.For("C13")
 	c.Rule("reject: a reference peer (either role) sends its magic after exactly 8194 padding bytes (must be accepted, data delivered) or after 8195 / 8196..12000 bytes, or never (filler or a magic with one flipped bit, followed by enough data to exceed MAX_PADDING+32), in generated segmentations; oracle: the real side's Read returns an error once everything is released and delivers nothing; non-trivial = every case (boundary value or damaged preamble); fingerprint = parameters + segmentation")
 	c.Floor("reject-accept-8194/reject", 0.15)
-	c.Floor("reject-8195/reject", 0.15)
-	c.Floor("reject-no-magic/reject", 0.15)
+	c.Floor("reject-8195/reject", 0.10)
+	c.Floor("reject-no-magic/reject", 0.08)
 	rapid.Check(t, func(rt *rapid.T) {
 		arr := rapid.SampledFrom([]int{vfArrRealClient, vfArrRealServer}).Draw(rt, "arrangement")
 		rk := rapid.Uint64().Draw(rt, "detrand")
